@@ -852,6 +852,7 @@ func runC18(r *Run) {
 		r.universalE11(P, pkgComposer, pkgPatch, pkgDocument, pkgPatchVal)
 	}
 	r.checkNoPanic(P, entries, 40)
+	r.checkCopyAliasing(P)
 }
 
 func errResultOnly(f *ssa.Function) bool {
@@ -939,11 +940,37 @@ func (r *Run) checkPointerMembers(P string) {
 	_ = r.E.Facts(v, core.Ctx{})
 	// for each member: the value decoded from op[member] is tested with strings.HasPrefix against both
 	// protected prefixes, the true edge reaching only errors (followed into helper functions)
+	// does the engine's pointer resolver discard what precedes the first '/'? (findObject: strings.Split(path, "/")[1:...])
+	dropsFirst := false
+	for f := range r.P.AllFuncs {
+		if f.Pkg != eng || f.Blocks == nil || f.Name() != "findObject" {
+			continue
+		}
+		for _, b := range f.Blocks {
+			for _, ins := range b.Instrs {
+				if sl, ok := ins.(*ssa.Slice); ok && sl.Low != nil {
+					if k, ok := sl.Low.(*ssa.Const); ok && k.Value != nil && k.Value.ExactString() == "1" {
+						if c, ok := sl.X.(*ssa.Call); ok && c.Common().StaticCallee() != nil && c.Common().StaticCallee().String() == "strings.Split" {
+							dropsFirst = true
+						}
+					}
+				}
+			}
+		}
+	}
+	r.R.List("engine premises (derived from the JSON-patch library source)", fmt.Sprintf("findObject resolves strings.Split(pointer, \"/\")[1:], i.e. ignores the text before the first '/': %v", dropsFirst))
 	for _, m := range keysOf(pointerMembers) {
 		prefixes := r.protectedPrefixTests(v, m)
 		okM := prefixes["/service"] && prefixes["/publicKey"]
 		r.R.Check(okM, P+".pointer.members."+m, rule, "patchvalidator.validateJSONPatches member \""+m+"\"", r.where(v), why,
 			"both protected prefixes rejected for this member", fmt.Sprintf("member %q: protected prefixes rejected: %v (need /publicKey and /service)", m, keysOf(prefixes)))
+		// the prefix tests look at the string; the engine looks at the tokens after the first '/'. Both see the
+		// same location only if the pointer starts with '/' (RFC 6901) — required whenever the engine drops the first token.
+		okR := !dropsFirst || prefixes["required:/"]
+		r.R.Check(okR, P+".pointer.rooted."+m, "sibling agreement (validator ↔ engine): the engine resolves a pointer from its first '/', so the validator's prefix tests are only meaningful for pointers that start with '/': a member that does not is rejected",
+			"patchvalidator.validateJSONPatches member \""+m+"\"", r.where(v),
+			"{\"op\":\"remove\",\"path\":\"x/publicKey\"} passes both prefix tests and removes the public keys, because the engine ignores the text before the first '/'",
+			"a pointer that does not start with '/' is rejected", fmt.Sprintf("member %q: no test that rejects a pointer not starting with '/' (tests found: %v)", m, keysOf(prefixes)))
 	}
 }
 
@@ -1007,6 +1034,10 @@ func (r *Run) protectedPrefixTests(f *ssa.Function, member string) map[string]bo
 							for _, cr := range *crefs {
 								if iff, ok := cr.(*ssa.If); ok && onlyErrors(ff, iff.Block().Succs[0]) {
 									out[constant.StringVal(k.Value)] = true
+								}
+								// required prefix: the pointer must start with the constant (false edge only reaches errors)
+								if iff, ok := cr.(*ssa.If); ok && onlyErrors(ff, iff.Block().Succs[1]) {
+									out["required:"+constant.StringVal(k.Value)] = true
 								}
 							}
 						}
